@@ -16,7 +16,7 @@ def srcOf : List (ObjId × ObjId) → ObjId → Option ObjId
 theorem moveStep_eq (bks : List Nat) (st : MoveSt) (p : ObjId × ObjId) :
     (moveStep bks st p).objects = (moveObj st p).objects ∧ (moveStep bks st p).tmp = (moveObj st p).tmp ∧
     (moveStep bks st p).replace = (moveObj st p).replace := by
-  unfold moveStep; split <;> simp
+  unfold moveStep; simp
 
 theorem moveStep_objects (bks : List Nat) (st : MoveSt) (p : ObjId × ObjId) (k : ObjId) :
     (moveStep bks st p).objects.get k = if p.1 = k then none else st.objects.get k := by
